@@ -65,6 +65,17 @@ func (r *RunCtx) ev(format string, args ...interface{}) {
 	}
 }
 
+// evv logs an event whose text contains numbers that legitimately vary
+// between two executions of the same seed (file sizes and byte offsets derived
+// from them: zapx lays sections out in Go map iteration order). Only the stable
+// key enters the run digest.
+func (r *RunCtx) evv(key string, format string, args ...interface{}) {
+	r.dig.s(key)
+	if len(r.Events) < 400 {
+		r.Events = append(r.Events, fmt.Sprintf(format, args...))
+	}
+}
+
 func (r *RunCtx) count(name string) { r.Stats[name]++ }
 func (r *RunCtx) countN(name string, n int) {
 	if n != 0 {
